@@ -26,13 +26,22 @@ def _canon(obj):
     return json.dumps(obj, sort_keys=True, ensure_ascii=True, default=repr)
 
 
+def _all_entries():
+    import glob
+
+    paths = [PATH] + sorted(glob.glob(os.path.join(VERIF, "known_findings.d", "*.json")))
+    for p in paths:
+        if not os.path.exists(p):
+            continue
+        with open(p) as f:
+            data = json.load(f)
+        for ent in data.get("findings", []):
+            yield ent
+
+
 def load(prop):
-    if not os.path.exists(PATH):
-        return []
-    with open(PATH) as f:
-        data = json.load(f)
     out = []
-    for ent in data.get("findings", []):
+    for ent in _all_entries():
         if ent.get("property") != prop:
             continue
         ent = dict(ent)
